@@ -48,6 +48,17 @@ def dir_hash(root):
     return out
 
 
+def dir_stat(root):
+    """(inode, mtime_ns, size) of every file: a rewrite with identical bytes is still a write"""
+    out = {}
+    for dp, _, files in os.walk(root):
+        for f in files:
+            p = os.path.join(dp, f)
+            st = os.stat(p)
+            out[os.path.relpath(p, root)] = (st.st_ino, st.st_mtime_ns, st.st_size)
+    return out
+
+
 def run_cli(image_path, rpc, target=None):
     from ceos_alos2.sar_image import cli
     cli.create_cache(pathlib.Path(image_path), pathlib.Path(target) if target else None, rpc)
@@ -67,7 +78,9 @@ def check_c07(seed, tier):
     if tier == "quick":
         combos = rng.sample(combos, 6) + [c for c in combos if c[2] == "memory"][:1]
     for level, producer, fs in combos:
-        cfg = {"seed": rng.randrange(10**9), "level": level, "images": [("HH", None), ("HV", None)], "n_lines": rng.randint(2, 6), "n_pixels": 3}
+        # image sets: two polarisations, or ScanSAR (file names of one polarisation differ only in the scan suffix after the level's dot)
+        images = rng.choice([[("HH", None), ("HV", None)], [("HH", "F1"), ("HH", "F2"), ("HV", "F1")], [("VV", "B3"), ("VV", "B4")]])
+        cfg = {"seed": rng.randrange(10**9), "level": level, "images": images, "n_lines": rng.randint(2, 6), "n_pixels": 3}
         prod = products.build(cfg)
         path, clean = products.place(prod, fs)
         wipe_user_cache()
@@ -313,9 +326,21 @@ def check_c10(seed, tier):
                 ref(r)
             base_hash = dir_hash(path)
             ops = []
-            for step_no in range(rng.randint(4, 9) if tier == "quick" else rng.randint(6, 14)):
+            # the first history of every run is scripted: each producer followed by each kind of open (the random ones follow)
+            scripted = [{"op": "cli", "rpc": 2, "image": 0}, {"op": "cli", "rpc": 1024, "image": 1},
+                        {"op": "open", "use_cache": False, "create_cache": True, "records_per_chunk": 3},
+                        {"op": "open", "use_cache": True, "create_cache": False, "records_per_chunk": 1},
+                        {"op": "del_adjacent"},
+                        {"op": "open", "use_cache": True, "create_cache": True, "records_per_chunk": 1024},
+                        {"op": "del_local"},
+                        {"op": "open", "use_cache": True, "create_cache": True, "records_per_chunk": 2},
+                        {"op": "cli", "rpc": 3, "image": 0},
+                        {"op": "open", "use_cache": True, "create_cache": True, "records_per_chunk": 2}] if trial == 0 else None
+            for step_no in range(len(scripted) if scripted else (rng.randint(4, 9) if tier == "quick" else rng.randint(6, 14))):
                 kind = rng.random()
-                if kind < 0.6:
+                if scripted:
+                    op = dict(scripted[step_no])
+                elif kind < 0.6:
                     op = {"op": "open", "use_cache": rng.random() < 0.7, "create_cache": rng.random() < 0.4, "records_per_chunk": rng.choice([1, 2, 3, 1024])}
                 elif kind < 0.75:
                     op = {"op": "cli", "rpc": rng.choice([1, 2, 3, 4096]), "image": rng.randrange(2)}
@@ -332,8 +357,13 @@ def check_c10(seed, tier):
                         opts = {k: v for k, v in op.items() if k != "op"}
                         before = copy.deepcopy(opts)
                         cache_before = dir_hash(os.environ["XDG_CACHE_HOME"])
+                        stat_before = dir_stat(path)
                         t = _open_with(path, opts)
                         got = fp(t)
+                        stat_after = dir_stat(path)
+                        if stat_after != stat_before:
+                            touched = sorted(k for k in set(stat_before) | set(stat_after) if stat_before.get(k) != stat_after.get(k))
+                            viol.append({"case": case, "what": f"open_alos2 wrote into the product directory (inode / mtime / size changed): {touched}"})
                         if opts != before:
                             viol.append({"case": case, "what": f"option dict mutated: {before} -> {opts}"})
                         d = treecmp.diff(ref(op["records_per_chunk"]), got)
